@@ -72,3 +72,124 @@ package dawn
 //@   ensures  accounted: printed_len == old(printed_len) + ite(len(old(sb)[l]) != 0, len(old(sb)[l]) + 1, 0)
 //@   ensures  result == nil
 //@   modifies sb, n_print, printed_len
+
+// ---------------------------------------------------------------- C01/C03/C13/C18: runTarget.Evaluate
+
+// Per-call protocol state (thread-local: one goroutine evaluates one target at a time; nested
+// evaluations run in other goroutines).
+//   phase      0 start, 1 evaluating, 2 succeeded, 3 failed, 4 up-to-date
+//   was_eval   an evaluating event was emitted
+//   n_body     bodies executed            body_ok     the latest body returned nil
+//   n_save     records written            saved_*     content of the latest record written
+//@ ghost phase int threadlocal = 0
+//@ ghost was_eval bool threadlocal = false
+//@ ghost n_body int threadlocal = 0
+//@ ghost body_ok bool threadlocal = false
+//@ ghost body_data string threadlocal = ""
+//@ ghost n_save int threadlocal = 0
+//@ ghost saved_rerun bool threadlocal = false
+//@ ghost saved_data string threadlocal = ""
+//@ ghost saved_deps ref threadlocal = nil
+
+// Run options are set once per Run, before the runner starts, and nothing else writes them.
+//@ struct dawn.Project
+//@   stable always, dryrun writers (*dawn.RunOptions).apply
+//@   stable events writers dawn.Load, (*dawn.LoadOptions).apply
+
+//@ func (dawn.Events).TargetUpToDate
+//@   requires protocol: phase == 0
+//@   ensures  phase == 4
+//@   modifies phase
+//@ func (dawn.Events).TargetEvaluating
+//@   requires protocol: phase == 0
+//@   ensures  phase == 1 && was_eval
+//@   modifies phase, was_eval
+//@ func (dawn.Events).TargetSucceeded
+//@   requires protocol: phase == 1
+//@   ensures  phase == 2
+//@   modifies phase
+//@ func (dawn.Events).TargetFailed
+//@   requires protocol: phase == 0 || phase == 1
+//@   ensures  phase == 3
+//@   modifies phase
+
+//@ func (dawn.Target).Project
+//@   pure
+//@   ensures result != nil
+//@ func (dawn.Target).Label
+//@   pure
+//@ func (dawn.Target).Doc
+//@   pure
+//@ func (dawn.Target).info
+//@   pure
+//@ func (dawn.Target).dependencies
+//@   pure
+//@ func (dawn.Target).upToDate
+//@   modifies heap
+//@ func (dawn.Target).evaluate
+//@   ensures n_body == old(n_body) + 1 && body_ok == (err == nil) && body_data == data
+//@   modifies heap, n_body, body_ok, body_data
+
+//@ func (runner.Engine).EvaluateTargets
+//@   ensures len(result) == len(labels)
+//@   ensures forall j: int :: 0 <= j && j < len(result) ==> (result[j].Error == nil ==> istype(result[j].Target, "*dawn.runTarget"))
+//@   modifies heap
+
+//@ func (*dawn.Project).saveTargetInfo
+//@   trusted
+//@   ensures n_save == old(n_save) + 1 && saved_rerun == info.Rerun && saved_data == info.Data && saved_deps == info.Dependencies
+//@   modifies n_save, saved_rerun, saved_data, saved_deps
+
+//@ func (*dawn.runTarget).Evaluate
+//@   requires t != nil && t.target != nil && engine != nil
+//@   requires fresh-call: phase == 0 && !was_eval
+//@   ensures  protocol: (result == nil ==> (phase == 4 || phase == 2)) && (result != nil ==> (phase == 3 || phase == 0))
+//@   ensures  evaluating-iff-body: n_body <= old(n_body) + 1 && ((was_eval && !proj.dryrun) <==> n_body == old(n_body) + 1)
+//@   ensures  dry-pure: proj.dryrun ==> (n_body == old(n_body) && n_save == old(n_save))
+//@   ensures  dry-changed: (proj.dryrun && was_eval) ==> (t.changed && result == nil && phase == 2)
+//@   ensures  one-save: n_save <= old(n_save) + 1
+//@   ensures  skip-silent: phase == 4 ==> (n_body == old(n_body) && n_save == old(n_save) && result == nil)
+//@   ensures  stamp-only-after-success: (n_save == old(n_save) + 1 && !saved_rerun) ==> (n_body == old(n_body) + 1 && body_ok)
+//@   ensures  fail-no-stamp: (n_body == old(n_body) + 1 && !body_ok) ==> (result != nil && phase == 3 && n_save == old(n_save) + 1 && saved_rerun && saved_data == "")
+//@   ensures  success-recorded: (n_body == old(n_body) + 1 && body_ok && result == nil) ==> (phase == 2 && n_save == old(n_save) + 1 && !saved_rerun && saved_data == t.data && saved_deps == depData)
+//@   ensures  success-stamp: (n_body == old(n_body) + 1 && body_ok && result == nil && t.changed) ==> t.data == body_data
+//@   callsite TargetUpToDate: assert skip-sound: !proj.always && depsUpToDate && upToDate && !info.Rerun
+//@   callsite evaluate: assert after-evaluating: phase == 1 && !proj.dryrun
+//@   modifies heap, phase, was_eval, n_body, body_ok, body_data, n_save, saved_rerun, saved_data, saved_deps
+//@   loop 0: invariant phase == 0 && !was_eval && n_body == old(n_body) && n_save == old(n_save)
+//@   loop 0: invariant depData != nil && proj != nil
+//@   loop 0: step dep-checked: when depsUpToDate ensures old(depsUpToDate) && ok && !dep.Target.(*dawn.runTarget).changed && newData == prevData && depData[label] == newData && dep.Error == nil
+
+// Bodies report `changed` whenever they succeed: this is what the dry run assumes (C13).
+//@ func (*dawn.sourceFile).evaluate
+//@   requires f != nil
+//@   ensures  changed-on-success: result.2 == nil && result.1 && result.0 == old(f.sum)
+//@   modifies f.oldSum
+
+//@ func (*dawn.function).evaluate
+//@   requires f != nil && f.out != nil
+//@   requires pending-oneline: forall i: int :: 0 <= i && i < len(sb[f.out]) ==> sb[f.out][i] != 10
+//@   ensures  changed-on-success: result.2 == nil ==> result.1
+//@   ensures  no-stamp-on-failure: result.2 != nil ==> (result.0 == "" && !result.1)
+//@   modifies heap, sb, n_print, printed_len, call_failed
+
+//@ func (*dawn.RunOptions).apply
+//@   requires proj != nil
+//@   ensures  reset: opts == nil ==> (!proj.always && !proj.dryrun)
+//@   ensures  set: opts != nil ==> (proj.always == opts.Always && proj.dryrun == opts.DryRun)
+//@   modifies proj.always, proj.dryrun
+
+//   n_rundone - RunDone events delivered; rundone_err - the error delivered with the latest one
+//@ ghost n_rundone int threadlocal = 0
+//@ ghost rundone_err iface threadlocal = nil
+//@ func (dawn.Events).RunDone
+//@   ensures n_rundone == old(n_rundone) + 1 && rundone_err == err
+//@   modifies n_rundone, rundone_err
+
+//@ func (*dawn.Project).Run
+//@   requires proj != nil && label != nil
+//@   requires idle: held == 0 && claimed == ref_empty()
+//@   requires nolocks: (forall g: *runner.gate :: !holds(g.m)) && (forall x: *runner.target :: !holds(x.m))
+//@   ensures  run-done-once: n_rundone == old(n_rundone) + 1 && rundone_err == result
+//@   callsite RunDone: assert after-runner: n_runs == old(n_runs) + 1
+//@   modifies heap, n_rundone, rundone_err, n_runs
